@@ -69,10 +69,10 @@ def pick_lines(path, wanted):
     return out
 
 
-def judge(ctx, module, tpath, kind, what, samples=(), heap="6g", timeout=1800):
+def judge(ctx, module, tpath, kind, what, samples=(), heap="6g", timeout=1800, maxset=None):
     """Validate one recorded trace with TLC; one violation per rejected clause (first = earliest event).
     kind: 'seq' or 'amino' (which exec command re-runs an event)."""
-    n, bad = ctx.validate_trace(module, tpath, heap=heap, timeout=timeout)
+    n, bad = ctx.validate_trace(module, tpath, heap=heap, timeout=timeout, maxset=maxset)
     by_reason = {}
     for line, why in bad:
         by_reason.setdefault(why, []).append(line)
@@ -166,6 +166,11 @@ def run(ctx):
         ctx.model_check("MC_Seq", "MC_Seq_rc6", workers=16, heap="8g", timeout=3000)
     # T
     if thorough:
+        # inputs beyond 2^20 elements: 5 events, judged one by one (each is several MB of JSON)
+        for part in range(2):
+            t = drive(ctx, ["seq-drive", "huge", "@OUT@", 0, part, 5], "huge_%d.ndjson" % part)
+            judge(ctx, "Trace_Seq", t, "seq", "sequtil", heap="14g", timeout=3000, maxset=100000000)
+            os.remove(t)
         for fam, maxlen, parts in (("rc", 6, 6), ("canon", 5, 8)):
             for part in range(parts):
                 t = drive(ctx, ["seq-drive", fam, "@OUT@", maxlen, part, parts], "%s_%d.ndjson" % (fam, part))
